@@ -37,7 +37,7 @@ let wop_of_tok (t : string) : wop =
          (match t.[0], rest with
           | 'w', _ -> WWrite data
           | 't', _ -> WWriteThrough data
-          | _, [spec] ->
+          | _, ([spec] | [spec; _]) ->   (* an optional 4th field names the concrete type of the source: not seen by the model *)
             let spec = String.concat "," (split '+' spec) in
             WReadFrom (data, sizes_of_spec spec (List.length data))
           | _ -> failwith "r op")
